@@ -97,10 +97,58 @@ def check_instance(rp):
             problems.append(("oracle/zero-but-not-a-solution",
                              f"value 0 at x={x}, which is not a valid solution of the routing problem: {why}", {"x": x}))
             break
+    # ... and conversely every valid solution has value zero ("minimum zero iff the routing problem is feasible" needs this
+    # direction too): vectors the independent checkers accept, among them the heuristic's stored solution, must be zeros
+    cand = list(np.flatnonzero(~zero))
+    if len(cand) > 300:
+        step = max(1, len(cand) // 300)
+        cand = cand[::step][:300]
+    fs = getattr(rp, "feasible_solution", None)
+    if fs is not None and len(fs) == n and n > 0:
+        try:
+            k = int("".join(str(int(round(float(v)))) for v in fs), 2) if all(float(v) in (0.0, 1.0) for v in fs) else None
+        except Exception:  # noqa
+            k = None
+        if k is not None and [int(v) for v in X[k]] == [int(round(float(v))) for v in fs] and not zero[k]:
+            cand = [k] + cand
+    for idx in cand:
+        x = [int(v) for v in X[idx]]
+        ok, why = semantic_valid(rp, x)
+        if ok is True:
+            problems.append(("oracle/solution-but-nonzero",
+                             f"x={x} is a valid solution of the routing problem (independent checker) but has feasibility value "
+                             f"{Fraction(int(vals[idx]), den)} (|Ax-b|^2={int(res2[idx])}, x'Rx={int(xrx[idx])} on the reported constraint data)",
+                             {"x": x, "value": str(Fraction(int(vals[idx]), den))}))
+            break
     if (int(vals.min()) == 0) != bool(feasible.any()):
         problems.append(("oracle/min-zero-iff-feasible",
                          f"minimum value {Fraction(int(vals.min()), den)}, feasible vectors: {int(feasible.sum())}", {}))
     return d, S, out, int(zero.sum()), int(feasible.sum()), problems
+
+
+def chain_descs(rng, count):
+    """Targeted sequence instances: a chain D -> c1 -> ... -> ck whose last customers have no arc back to the depot, enough
+    vehicles and positions for the heuristic to serve everybody with regular vehicles, queried BEFORE the heuristic runs
+    (so the only thing the heuristic changes is an exit arc); strict and non-strict."""
+    INF = float("inf")
+    out = []
+    for _ in range(count):
+        k = rng.randint(1, 3)
+        cust = [f"c{i + 1}" for i in range(k)]
+        nodes = [("D", 0, 0, INF)] + [(c, rng.randint(-1, 2), 0, INF if rng.random() < 0.7 else rng.randint(6, 9)) for c in cust]
+        arcs = [("D", cust[0], rng.randint(0, 2), rng.randint(0, 4))]
+        arcs += [(cust[i], cust[i + 1], rng.randint(0, 2), rng.randint(0, 4)) for i in range(k - 1)]
+        for c in cust[:-1]:
+            if rng.random() < 0.3:
+                arcs.append((c, "D", rng.randint(0, 2), rng.randint(0, 4)))
+        if rng.random() < 0.3:
+            arcs.append(("D", rng.choice(cust), rng.randint(0, 2), rng.randint(0, 4)))
+        rng.shuffle(arcs)
+        out.append({"nodes": nodes, "depot_first": True, "arcs": arcs, "time_points": [0, 1, 2], "V": rng.randint(1, 2),
+                    "L": k + rng.randint(2, 3), "strict": rng.random() < 0.4, "routes": [], "vehicle_cap": 10,
+                    "initial_loading": 2, "make_feasible": rng.choice([0, 10]), "mf_mode": "after_query",
+                    "np_seed": rng.randrange(2 ** 31), "cost_scale": 1})
+    return out
 
 
 def instance_fails(kind, desc, sig):
@@ -171,6 +219,32 @@ def run(ctx):
             ctx.count(nontrivial=1)
         ctx.sample({"kind": kind, "n": d["n"], "zero_value_vectors": zeros, "feasible_vectors": nfeas,
                     "make_feasible": case["desc"]["make_feasible"], "mf_outcome": rp.vq_mf})
+    # targeted: sequence chains whose exit arc is added by the heuristic after the model was queried
+    n_chain = 0
+    for desc in chain_descs(rng, 40 if ctx.quick else 600):
+        try:
+            rp = fh.BUILDERS["seq"](desc)
+            if int(rp.get_num_variables()) < 1 or int(rp.get_num_variables()) > max_n:
+                continue
+        except Exception:  # noqa
+            continue
+        n_chain += 1
+        for sig, msg, extra in check_instance(rp)[5]:
+            full = f"{sig}/seq"
+            if full in reported:
+                continue
+            reported.add(full)
+            ctx.violation(full, f"seq (chain, queried before the heuristic): {msg}",
+                          dict(fh.describe({"kind": "seq", "desc": desc, "rp": rp}), **extra,
+                               python="props.c03.check_instance(fh.BUILDERS['seq'](desc))"), True)
+    stats["seq_chain_queried_before_heuristic"] = n_chain
+    # path-based problems that grow between two queries (a customer added after the first feasibility QUBO was requested)
+    from props import c02_grow
+
+    def check_grown(rp_, rng_):
+        r = check_instance(rp_)
+        return r[0], r[1], r[2], r[5]
+    stats["path_grown_between_queries"] = c02_grow.run_stream(ctx, check_grown, 25 if ctx.quick else 250)
     ctx.count(evaluations=n_eval, traces=len(cases))
     ctx.cov["input_distribution"] = stats
     ctx.cov["rule"] = ("formulation harness instances (see C02) built through the real classes, get_qubo(feasibility=True) with the "
